@@ -29,6 +29,8 @@ THEOREMS = [
     "IwModel.C02.store_seek_ge",
     "IwModel.C02.store_cursor_write",
 ]
+# C functions this check's models mirror (source-text fingerprints are recorded in the evidence, see translate/funchash.py)
+MODELLED_FUNCS = {'src/kv/iwkv.c': ['_cursor_to_lr', '_cursor_get_ge_idx', 'iwkv_cursor_open', 'iwkv_cursor_to', 'iwkv_cursor_to_key', 'iwkv_cursor_get', 'iwkv_cursor_copy_val', 'iwkv_cursor_copy_key', 'iwkv_cursor_is_matched_key', 'iwkv_cursor_seth', 'iwkv_cursor_del']}
 MANIFEST = dict(
     level="proof",
     text=("Lean 4 theorems over the cursor state machine of the node-level KV model (scan order, EQ/GE as the code computes them, "
